@@ -629,3 +629,331 @@ Proof.
   intros E. injection E as E1' E2 E3. subst r e c. split; [reflexivity|]. split; [reflexivity|].
   intros C. rewrite C in *. cbn [orb andb] in E1. split; [reflexivity|lia].
 Qed.
+
+Lemma ip4_decode_inv : forall data c e, ip4_decode data = Ok (c, e) ->
+  (exists k, c = firstn k data) /\ e = get16 c 10 /\ (20 <= length c)%nat.
+Proof.
+  intros data c e. unfold ip4_decode. cbv zeta.
+  set (n := Z.of_nat (length data)).
+  set (ihl := nthZ data 0 mod 16).
+  set (len := if get16 data 2 =? 0 then u16 n else get16 data 2).
+  destruct (Z.ltb_spec n 20); [discriminate|].
+  destruct (Z.ltb_spec len 20); [discriminate|].
+  destruct (Z.ltb_spec ihl 5); [discriminate|].
+  assert (Hihl : 5 <= ihl < 16) by (unfold ihl; lia).
+  assert (Hu8 : u8 (ihl * 4) = ihl * 4) by (unfold u8; lia).
+  rewrite Hu8.
+  destruct (Z.ltb_spec len (ihl * 4)); [discriminate|].
+  destruct ((n - len <? 0) && (n <? ihl * 4)) eqn:E5; [discriminate|].
+  set (data' := if 0 <? n - len then firstn (Z.to_nat len) data else data).
+  destruct (ip4_options_ok _ _); [|discriminate].
+  intros E. injection E as E1 E2. subst c e.
+  assert (Hd : exists k, data' = firstn k data /\ (Z.to_nat (ihl * 4) <= length data')%nat).
+  { unfold data'. destruct (Z.ltb_spec 0 (n - len)).
+    - exists (Z.to_nat len). split; [reflexivity|]. rewrite firstn_length. unfold n in *. lia.
+    - exists (length data). rewrite firstn_all. split; [reflexivity|]. unfold n in *. lia. }
+  destruct Hd as (k & Hk & Hlen).
+  split.
+  - rewrite Hk. rewrite firstn_firstn. eexists; reflexivity.
+  - split.
+    + unfold get16. rewrite !nthZ_firstn by lia. reflexivity.
+    + rewrite firstn_length. lia.
+Qed.
+
+(* ------------------------------------------------------------------ single-bit corruption *)
+Definition flip_check : bool :=
+  forallb (fun k => forallb (fun n =>
+    let b := Z.of_nat n in let v := Z.lxor b (2 ^ Z.of_nat k) in
+    (0 <=? v) && (v <? 256) && ((v =? b + 2 ^ Z.of_nat k) || (v =? b - 2 ^ Z.of_nat k)))
+    (seq 0 256)) (seq 0 8).
+
+Lemma flip_check_true : flip_check = true.
+Proof. vm_compute. reflexivity. Qed.
+
+Lemma flip_byte_spec : forall b k, 0 <= b < 256 -> (k < 8)%nat ->
+  let v := Z.lxor b (2 ^ Z.of_nat k) in
+  0 <= v < 256 /\ (v = b + 2 ^ Z.of_nat k \/ v = b - 2 ^ Z.of_nat k).
+Proof.
+  intros b k Hb Hk v. pose proof flip_check_true as F. unfold flip_check in F.
+  rewrite forallb_forall in F. specialize (F k ltac:(apply in_seq; lia)).
+  rewrite forallb_forall in F. specialize (F (Z.to_nat b) ltac:(apply in_seq; lia)).
+  rewrite Z2Nat.id in F by lia. fold v in F. lia.
+Qed.
+
+Lemma pow2_small : forall k, (k < 8)%nat -> 1 <= 2 ^ Z.of_nat k <= 128.
+Proof.
+  intros k H. do 8 (destruct k as [|k]; [vm_compute; split; discriminate|]). lia.
+Qed.
+
+Lemma nthZ_range : forall bs j, bytes_ok bs -> (j < length bs)%nat -> 0 <= nthZ bs j < 256.
+Proof.
+  intros bs j H L. unfold bytes_ok in H. rewrite Forall_forall in H.
+  apply (H (nthZ bs j)). unfold nthZ. apply nth_In. exact L.
+Qed.
+
+Lemma flip_bit_spec : forall pk i, bytes_ok pk -> (i < 8 * length pk)%nat ->
+  let j := (i / 8)%nat in
+  exists d, flip_bit pk i = upd pk j (nthZ pk j + d) /\ (j < length pk)%nat /\
+    0 <= nthZ pk j + d < 256 /\ (1 <= d <= 128 \/ -128 <= d <= -1).
+Proof.
+  intros pk i H L j.
+  assert (Lj : (j < length pk)%nat) by (unfold j; apply Nat.div_lt_upper_bound; lia).
+  assert (Lk : (i mod 8 < 8)%nat) by (apply Nat.mod_upper_bound; lia).
+  pose proof (nthZ_range pk j H Lj) as R.
+  destruct (flip_byte_spec (nthZ pk j) (i mod 8)%nat R Lk) as [V D].
+  pose proof (pow2_small _ Lk) as P.
+  unfold flip_bit. fold j.
+  exists (Z.lxor (nthZ pk j) (2 ^ Z.of_nat (i mod 8)) - nthZ pk j).
+  split; [f_equal; lia|]. split; [exact Lj|]. split; lia.
+Qed.
+
+Lemma put16_upd_out : forall pk off j v w, j <> off -> j <> S off ->
+  put16 (upd pk j v) off w = upd (put16 pk off w) j v.
+Proof.
+  intros. unfold put16.
+  rewrite (upd_comm pk j off) by lia. rewrite (upd_comm _ j (S off)) by lia. reflexivity.
+Qed.
+
+Lemma get16_upd_out : forall pk off j v, (j < length pk)%nat -> j <> off -> j <> S off ->
+  get16 (upd pk j v) off = get16 pk off.
+Proof.
+  intros pk off j v L H1 H2. unfold get16. rewrite !nthZ_upd by lia.
+  assert (E1 : (off =? j)%nat = false) by (apply Nat.eqb_neq; lia).
+  assert (E2 : (S off =? j)%nat = false) by (apply Nat.eqb_neq; lia).
+  rewrite E1, E2. reflexivity.
+Qed.
+
+Lemma put16_upd_in : forall pk off j v w, j = off \/ j = S off -> put16 (upd pk j v) off w = put16 pk off w.
+Proof.
+  intros pk off j v w [E|E]; subst j; unfold put16.
+  - rewrite upd_upd_same. reflexivity.
+  - rewrite (upd_comm pk (S off) off) by lia. rewrite upd_upd_same.
+    rewrite (upd_comm pk off (S off)) by lia. reflexivity.
+Qed.
+
+Lemma get16_upd_in : forall pk off j d, (S off < length pk)%nat -> j = off \/ j = S off -> d <> 0 -> -255 <= d <= 255 ->
+  get16 (upd pk j (nthZ pk j + d)) off <> get16 pk off.
+Proof.
+  intros pk off j d L [E|E] D R; subst j; unfold get16; rewrite !nthZ_upd by lia.
+  - assert (E1 : (S off =? off)%nat = false) by (apply Nat.eqb_neq; lia).
+    rewrite Nat.eqb_refl, E1. lia.
+  - assert (E1 : (off =? S off)%nat = false) by (apply Nat.eqb_neq; lia).
+    rewrite Nat.eqb_refl, E1. lia.
+Qed.
+
+Lemma oc_congr : forall x y, 0 <= x -> 0 <= y -> oc x = oc y -> (x - y) mod 65535 = 0.
+Proof.
+  intros x y Hx Hy. unfold oc.
+  destruct (Z.eqb_spec x 0); destruct (Z.eqb_spec y 0); lia.
+Qed.
+
+Lemma fold_differs : forall A A', 0 <= A < M32 -> 0 <= A' < M32 ->
+  (1 <= A' - A <= 65534 \/ 1 <= A - A' <= 65534) ->
+  FoldChecksum (A' mod M32) <> FoldChecksum (A mod M32).
+Proof.
+  intros A A' HA HA' D. rewrite !fold_wide by assumption. intros E.
+  assert (E' : oc A' = oc A) by lia.
+  apply oc_congr in E'; lia.
+Qed.
+
+Lemma weight_range : forall j, weight j = 256 \/ weight j = 1.
+Proof. intros j. unfold weight. destruct (Nat.even j); auto. Qed.
+
+(* a word-sum-like function: changing one byte changes it by the weighted difference *)
+Definition sumlike (W : list Z -> Z) : Prop :=
+  forall l j v, (j < length l)%nat -> W (upd l j v) = W l + (v - nthZ l j) * weight j.
+
+Lemma wordsum_sumlike : sumlike wordsum.
+Proof. exact wordsum_upd. Qed.
+
+Lemma wide_sumlike : forall p proto, pseudo_ok p -> sumlike (wide p proto).
+Proof.
+  intros p proto Hp l j v L. rewrite !wide_split by assumption. rewrite upd_length.
+  rewrite wordsum_upd by exact L. lia.
+Qed.
+
+Lemma flip_generic : forall W pk off j d, sumlike W ->
+  (S off < length pk)%nat -> (j < length pk)%nat ->
+  (1 <= d <= 128 \/ -128 <= d <= -1) ->
+  let pk' := upd pk j (nthZ pk j + d) in
+  let f := FoldChecksum (W (put16 pk off 0) mod M32) in
+  let f' := FoldChecksum (W (put16 pk' off 0) mod M32) in
+  0 <= W (put16 pk off 0) < M32 -> 0 <= W (put16 pk' off 0) < M32 ->
+  (f' = f /\ get16 pk' off <> get16 pk off) \/ (f' <> f /\ get16 pk' off = get16 pk off).
+Proof.
+  intros W pk off j d SW L Lj D pk' f f' B B'.
+  destruct (Nat.eq_dec j off) as [E|N1]; [|destruct (Nat.eq_dec j (S off)) as [E|N2]].
+  - left. split.
+    + unfold f', f, pk'. rewrite put16_upd_in by auto. reflexivity.
+    + apply get16_upd_in; auto; lia.
+  - left. split.
+    + unfold f', f, pk'. rewrite put16_upd_in by auto. reflexivity.
+    + apply get16_upd_in; auto; lia.
+  - right. split.
+    + unfold f', f. apply fold_differs; try assumption.
+      unfold pk' in *. rewrite put16_upd_out in * by assumption.
+      rewrite SW in * by (rewrite put16_length; exact Lj).
+      rewrite nthZ_put16_other in * by assumption.
+      destruct (weight_range j) as [Wj|Wj]; rewrite Wj in *; lia.
+    + unfold pk'. apply get16_upd_out; assumption.
+Qed.
+
+(* ------------------------------------------------------------------ reference values *)
+Definition reference (p : pseudo) (proto : Z) (bs0 : list Z) : Z :=
+  rfc1071 (pseudo_bytes p proto (Z.of_nat (length bs0)) ++ bs0).
+
+Lemma pseudo_bytes_length : forall p proto len, pseudo_ok p -> (length (pseudo_bytes p proto len) <= 40)%nat.
+Proof.
+  intros [|s d|s d] proto len H; cbn in H; [contradiction| |]; destruct H as (Ls & Ld & _ & _);
+    unfold pseudo_bytes, pseudo_bytes4, pseudo_bytes6; rewrite !app_length, Ls, Ld; cbn; lia.
+Qed.
+
+Lemma wide_nowrap : forall p proto bs, pseudo_ok p -> 0 <= proto < 256 -> bytes_ok bs ->
+  Z.of_nat (length bs) <= 131034 -> 0 <= wide p proto bs < M32.
+Proof.
+  intros p proto bs Hp Hpr H L. split; [apply wide_nonneg; assumption|].
+  unfold wide. apply nowrap_of_length.
+  - apply bytes_ok_app; [apply pseudo_bytes_ok|]; assumption.
+  - rewrite app_length. pose proof (pseudo_bytes_length p proto (Z.of_nat (length bs)) Hp). lia.
+Qed.
+
+Lemma fold_reference : forall p proto b0, pseudo_ok p -> 0 <= proto < 256 -> bytes_ok b0 ->
+  Z.of_nat (length b0) <= 131034 -> FoldChecksum (wide p proto b0 mod M32) = reference p proto b0.
+Proof. intros. rewrite fold_wide by (apply wide_nowrap; assumption). reflexivity. Qed.
+
+Lemma fold_reference_plain : forall b0, bytes_ok b0 -> Z.of_nat (length b0) <= 131074 ->
+  FoldChecksum (wordsum b0 mod M32) = rfc1071 b0.
+Proof.
+  intros b0 H L. rewrite fold_wide; [reflexivity|].
+  split; [apply wordsum_nonneg; exact H|apply nowrap_of_length; assumption].
+Qed.
+
+Lemma wide_positive : forall p proto bs, pseudo_ok p -> 0 < proto < 256 -> bytes_ok bs -> len_ok p bs -> 0 < wide p proto bs.
+Proof.
+  intros p proto bs Hp Hpr H [Hl H4]. rewrite wide_split by assumption.
+  destruct (pseudo_sum_spec p proto (Z.of_nat (length bs)) Hp ltac:(lia) ltac:(lia) H4) as (ph & _ & B & Wq).
+  rewrite Wq. pose proof (wordsum_nonneg bs H). lia.
+Qed.
+
+(* ------------------------------------------------------------------ emitted packets are accepted *)
+Lemma ck_eqb_refl : forall x : Z, (x =? x) = true.
+Proof. intros. apply Z.eqb_refl. Qed.
+
+Lemma tcp_accepts : forall p bs ck pk r e, pseudo_ok p -> len_ok p bs -> bytes_ok bs -> (20 <= length bs)%nat ->
+  tcp_emit p bs = Ok (ck, pk) -> tcp_decode pk = Ok (r, e) ->
+  tcp_verify p pk = Ok {| v_valid := true; v_correct := ck; v_actual := ck |}.
+Proof.
+  intros p bs ck pk r e Hp Hl H L Em De.
+  pose proof (tcp_emit_spec p bs Hp Hl H L) as Sp. cbv zeta in Sp.
+  set (ck0 := FoldChecksum (wide p IPProtocolTCP (put16 bs 16 0) mod M32)) in *.
+  assert (Rg : 0 <= ck0 <= 65535) by (apply fold_range; unfold M32; lia).
+  rewrite Sp in Em. injection Em as Eck Epk. subst ck pk.
+  set (pk := put16 (put16 bs 16 0) 16 ck0) in *.
+  assert (Lpk : length pk = length bs) by (unfold pk; rewrite !put16_length; reflexivity).
+  assert (Hpk : bytes_ok pk) by (unfold pk; repeat apply bytes_ok_put16; auto; lia).
+  assert (G : get16 pk 16 = ck0) by (unfold pk; apply get16_put16; [rewrite put16_length|]; lia).
+  unfold tcp_verify. rewrite De. cbn [obind]. apply tcp_decode_inv in De. destruct De as (-> & -> & _).
+  destruct (tcp_verify_core p pk Hp ltac:(unfold len_ok in *; rewrite Lpk; exact Hl) Hpk ltac:(lia)) as (ck' & out & E1 & _ & E2).
+  rewrite E2. unfold pk in E1. rewrite !tcp_emit_put16 in E1. rewrite Sp in E1.
+  injection E1 as E1 _. subst ck'. fold pk. rewrite G, ck_eqb_refl. reflexivity.
+Qed.
+Lemma icmp6_accepts : forall p bs ck pk r e, pseudo_ok p -> len_ok p bs -> bytes_ok bs -> (4 <= length bs)%nat ->
+  icmp6_emit p bs = Ok (ck, pk) -> icmp6_decode pk = Ok (r, e) ->
+  icmp6_verify p pk = Ok {| v_valid := true; v_correct := ck; v_actual := ck |}.
+Proof.
+  intros p bs ck pk r e Hp Hl H L Em De.
+  pose proof (icmp6_emit_spec p bs Hp Hl H L) as Sp. cbv zeta in Sp.
+  set (ck0 := FoldChecksum (wide p IPProtocolICMPv6 (put16 bs 2 0) mod M32)) in *.
+  assert (Rg : 0 <= ck0 <= 65535) by (apply fold_range; unfold M32; lia).
+  rewrite Sp in Em. injection Em as Eck Epk. subst ck pk.
+  set (pk := put16 (put16 bs 2 0) 2 ck0) in *.
+  assert (Lpk : length pk = length bs) by (unfold pk; rewrite !put16_length; reflexivity).
+  assert (Hpk : bytes_ok pk) by (unfold pk; repeat apply bytes_ok_put16; auto; lia).
+  assert (G : get16 pk 2 = ck0) by (unfold pk; apply get16_put16; [rewrite put16_length|]; lia).
+  unfold icmp6_verify. rewrite De. cbn [obind]. apply icmp6_decode_inv in De. destruct De as (-> & -> & _).
+  destruct (icmp6_verify_core p pk Hp ltac:(unfold len_ok in *; rewrite Lpk; exact Hl) Hpk ltac:(lia)) as (ck' & out & E1 & _ & E2).
+  rewrite E2. unfold pk in E1. rewrite !icmp6_emit_put16 in E1. rewrite Sp in E1.
+  injection E1 as E1 _. subst ck'. fold pk. rewrite G, ck_eqb_refl. reflexivity.
+Qed.
+
+(* UDP: the decoder may cut the region at the Length field; accepted when it covers the packet *)
+Lemma udp_accepts : forall p bs ck pk e, pseudo_ok p -> len_ok p bs -> bytes_ok bs -> (8 <= length bs)%nat ->
+  udp_emit p bs = Ok (ck, pk) -> udp_decode pk = Ok (pk, e) ->
+  udp_verify p pk = Ok {| v_valid := true; v_correct := ck; v_actual := ck |} /\ 1 <= ck <= 65535.
+Proof.
+  intros p bs ck pk e Hp Hl H L Em De.
+  pose proof (udp_emit_spec p bs Hp Hl H L) as Sp. cbv zeta in Sp.
+  set (f0 := FoldChecksum (wide p IPProtocolUDP (put16 bs 6 0) mod M32)) in *.
+  assert (Rf : 0 <= f0 <= 65535) by (apply fold_range; unfold M32; lia).
+  set (ck0 := if f0 =? 0 then 65535 else f0) in *.
+  assert (Rg : 1 <= ck0 <= 65535) by (unfold ck0; destruct (Z.eqb_spec f0 0); lia).
+  rewrite Sp in Em. injection Em as Eck Epk. subst ck.
+  assert (Lpk : length pk = length bs) by (subst pk; rewrite !put16_length; reflexivity).
+  assert (Hpk : bytes_ok pk) by (subst pk; repeat apply bytes_ok_put16; auto; lia).
+  assert (G : get16 pk 6 = ck0) by (subst pk; apply get16_put16; [rewrite put16_length|]; lia).
+  split; [|exact Rg].
+  unfold udp_verify. rewrite De. cbn [obind]. apply udp_decode_inv in De. destruct De as (_ & -> & _).
+  destruct (udp_verify_core p pk Hp ltac:(unfold len_ok in *; rewrite Lpk; exact Hl) Hpk ltac:(lia)) as (ck' & out & E1 & _ & E2).
+  rewrite E2. rewrite <- Epk in E1. rewrite !udp_emit_put16 in E1. rewrite Sp in E1.
+  injection E1 as E1 _. subst ck'. rewrite G, ck_eqb_refl. rewrite Bool.orb_true_r. reflexivity.
+Qed.
+
+Lemma icmp4_accepts : forall bs ck pk r e, bytes_ok bs -> (8 <= length bs)%nat ->
+  icmp4_emit bs = Ok (ck, pk) -> icmp4_decode pk = Ok (r, e) ->
+  icmp4_verify pk = Ok {| v_valid := true; v_correct := ck; v_actual := ck |}.
+Proof.
+  intros bs ck pk r e H L Em De.
+  pose proof (icmp4_emit_spec bs H L) as Sp. cbv zeta in Sp.
+  set (ck0 := FoldChecksum (wordsum (put16 bs 2 0) mod M32)) in *.
+  assert (Rg : 0 <= ck0 <= 65535) by (apply fold_range; unfold M32; lia).
+  rewrite Sp in Em. injection Em as Eck Epk. subst ck.
+  assert (Lpk : length pk = length bs) by (subst pk; rewrite !put16_length; reflexivity).
+  assert (Hpk : bytes_ok pk) by (subst pk; repeat apply bytes_ok_put16; auto; lia).
+  assert (G : get16 pk 2 = ck0) by (subst pk; apply get16_put16; [rewrite put16_length|]; lia).
+  unfold icmp4_verify. rewrite De. cbn [obind]. apply icmp4_decode_inv in De. destruct De as (-> & -> & _).
+  destruct (icmp4_verify_core pk Hpk ltac:(lia)) as (ck' & out & E1 & _ & E2).
+  rewrite E2. rewrite <- Epk in E1. rewrite !icmp4_emit_put16 in E1. rewrite Sp in E1.
+  injection E1 as E1 _. subst ck'. rewrite G, ck_eqb_refl. reflexivity.
+Qed.
+
+Lemma gre_accepts : forall bs ck pk r e c, bytes_ok bs -> (8 <= length bs)%nat -> 128 <= nthZ bs 0 ->
+  gre_emit bs = Ok (Some ck, pk) -> gre_decode pk = Ok (r, e, c) ->
+  gre_verify pk = Ok {| v_valid := true; v_correct := ck; v_actual := ck |}.
+Proof.
+  intros bs ck pk r e c H L C Em De.
+  pose proof (gre_emit_spec bs H L C) as Sp. cbv zeta in Sp.
+  set (ck0 := FoldChecksum (wordsum (put16 bs 4 0) mod M32)) in *.
+  assert (Rg : 0 <= ck0 <= 65535) by (apply fold_range; unfold M32; lia).
+  rewrite Sp in Em. injection Em as Eck Epk. subst ck.
+  assert (Lpk : length pk = length bs) by (subst pk; rewrite !put16_length; reflexivity).
+  assert (Hpk : bytes_ok pk) by (subst pk; repeat apply bytes_ok_put16; auto; lia).
+  assert (G : get16 pk 4 = ck0) by (subst pk; apply get16_put16; [rewrite put16_length|]; lia).
+  assert (C' : nthZ pk 0 = nthZ bs 0) by (subst pk; rewrite !nthZ_put16_other by (rewrite ?put16_length; lia); reflexivity).
+  unfold gre_verify. rewrite De. cbn [obind]. apply gre_decode_inv in De. destruct De as (-> & -> & De).
+  assert (EC : (128 <=? nthZ pk 0) = true) by lia. rewrite EC in *. destruct (De eq_refl) as (-> & _).
+  destruct (gre_verify_core pk Hpk ltac:(lia) ltac:(lia)) as (ck' & out & E1 & _ & E2).
+  rewrite E2. rewrite <- Epk in E1.
+  rewrite gre_emit_put16 in E1 by (rewrite ?put16_length, ?nthZ_put16_other; rewrite ?put16_length; lia).
+  rewrite gre_emit_put16 in E1 by lia.
+  rewrite Sp in E1.
+  injection E1 as E1 _. subst ck'. rewrite G, ck_eqb_refl. reflexivity.
+Qed.
+
+(* the IPv4 decoder hands over the first IHL*4 bytes; accepted when that is the emitted header *)
+Lemma ip4_accepts : forall hdr ck h payload e, bytes_ok hdr -> (20 <= length hdr)%nat ->
+  ip4_emit hdr = Ok (ck, h) -> ip4_decode (h ++ payload) = Ok (h, e) ->
+  ip4_verify (h ++ payload) = Ok {| v_valid := true; v_correct := ck; v_actual := ck |}.
+Proof.
+  intros hdr ck h payload e H L Em De.
+  pose proof (ip4_emit_spec hdr H L) as Sp. cbv zeta in Sp.
+  set (ck0 := FoldChecksum (wordsum (put16 hdr 10 0) mod M32)) in *.
+  assert (Rg : 0 <= ck0 <= 65535) by (apply fold_range; unfold M32; lia).
+  rewrite Sp in Em. injection Em as Eck Eh. subst ck.
+  assert (Lh : length h = length hdr) by (subst h; rewrite !put16_length; reflexivity).
+  assert (Hh : bytes_ok h) by (subst h; repeat apply bytes_ok_put16; auto; lia).
+  assert (G : get16 h 10 = ck0) by (subst h; apply get16_put16; [rewrite put16_length|]; lia).
+  unfold ip4_verify. rewrite De. cbn [obind]. apply ip4_decode_inv in De. destruct De as (_ & -> & _).
+  destruct (ip4_verify_core h Hh ltac:(lia)) as (ck' & out & E1 & _ & E2).
+  rewrite E2. rewrite <- Eh in E1. rewrite !ip4_emit_put16 in E1. rewrite Sp in E1.
+  injection E1 as E1 _. subst ck'. rewrite G, ck_eqb_refl. reflexivity.
+Qed.
